@@ -86,263 +86,20 @@ func TestC11Completeness(t *testing.T) {
 	})
 }
 
-// corruption classes ------------------------------------------------------------------------
-
-type corruption struct {
-	name    string
-	applies func(m *gen.WireMsg) bool
-	apply   func(t *rapid.T, m *gen.WireMsg) gen.JArr
-}
-
-func upperOneHex(t *rapid.T, s string) string {
-	var pos []int
-	for i := 0; i < len(s); i++ {
-		if s[i] >= 'a' && s[i] <= 'f' {
-			pos = append(pos, i)
-		}
-	}
-	if len(pos) == 0 {
-		return "A" + s[1:]
-	}
-	p := rapid.SampledFrom(pos).Draw(t, "uppos")
-	return s[:p] + strings.ToUpper(s[p:p+1]) + s[p+1:]
-}
-
-func isEv(m *gen.WireMsg) bool  { return m.Label == "EVENT" || m.Label == "AUTH" }
-func isFil(m *gen.WireMsg) bool { return m.Label == "REQ" || m.Label == "COUNT" }
-func anyMsg(*gen.WireMsg) bool  { return true }
-
-func withEvent(m *gen.WireMsg, f func(o gen.JObj) gen.J) gen.JArr {
-	doc := append(gen.JArr(nil), m.Doc...)
-	doc[m.EventIdx] = f(doc[m.EventIdx].(gen.JObj))
-	return doc
-}
-
-func withFilter(t *rapid.T, m *gen.WireMsg, f func(o gen.JObj) gen.J) gen.JArr {
-	doc := append(gen.JArr(nil), m.Doc...)
-	i := rapid.SampledFrom(m.FilterIdxs).Draw(t, "whichfilter")
-	doc[i] = f(doc[i].(gen.JObj))
-	return doc
-}
-
-func evField(name string, v func(t *rapid.T, old gen.J) gen.J) func(t *rapid.T, m *gen.WireMsg) gen.JArr {
-	return func(t *rapid.T, m *gen.WireMsg) gen.JArr {
-		return withEvent(m, func(o gen.JObj) gen.J {
-			i := gen.ObjGet(o, name)
-			return gen.ObjSet(o, name, v(t, o[i].V))
-		})
-	}
-}
-
-func filField(name string, v func(t *rapid.T) gen.J) func(t *rapid.T, m *gen.WireMsg) gen.JArr {
-	return func(t *rapid.T, m *gen.WireMsg) gen.JArr {
-		return withFilter(t, m, func(o gen.JObj) gen.J { return gen.ObjSet(o, name, v(t)) })
-	}
-}
-
-func constJ(v gen.J) func(t *rapid.T, old gen.J) gen.J {
-	return func(*rapid.T, gen.J) gen.J { return v }
-}
-
-func badHexList(kind string) func(t *rapid.T) gen.J {
-	return func(t *rapid.T) gen.J {
-		good := rapid.StringMatching("[0-9a-f]{64}").Draw(t, "goodhex")
-		var bad gen.J
-		switch kind {
-		case "short":
-			bad = gen.JStr(good[:63])
-		case "long":
-			bad = gen.JStr(good + "0")
-		case "upper":
-			bad = gen.JStr(upperOneHex(t, good))
-		case "nonhex":
-			bad = gen.JStr("g" + good[1:])
-		case "number":
-			bad = gen.JRaw("5")
-		case "empty":
-			bad = gen.JStr("")
-		}
-		if rapid.Bool().Draw(t, "badfirst") {
-			return gen.JArr{bad, gen.JStr(good)}
-		}
-		return gen.JArr{gen.JStr(good), bad}
-	}
-}
-
-var c11Corruptions = func() []corruption {
-	cs := []corruption{
-		{"label-unknown", anyMsg, func(t *rapid.T, m *gen.WireMsg) gen.JArr {
-			doc := append(gen.JArr(nil), m.Doc...)
-			doc[0] = gen.JStr(rapid.SampledFrom([]string{"EVENTS", "event", "", "NOTICE", "OK", "EOSE", "REQ ", " REQ", "CLOSED"}).Draw(t, "badlabel"))
-			return doc
-		}},
-		{"label-not-string", anyMsg, func(t *rapid.T, m *gen.WireMsg) gen.JArr {
-			doc := append(gen.JArr(nil), m.Doc...)
-			doc[0] = rapid.SampledFrom([]gen.J{gen.JRaw("1"), gen.JRaw("null"), gen.JArr{gen.JStr(m.Label)}, gen.JRaw("true")}).Draw(t, "badlabel")
-			return doc
-		}},
-		{"arity-extra", anyMsg, func(t *rapid.T, m *gen.WireMsg) gen.JArr {
-			return append(append(gen.JArr(nil), m.Doc...), gen.JStr("extra"))
-		}},
-		{"arity-missing", anyMsg, func(t *rapid.T, m *gen.WireMsg) gen.JArr {
-			if isFil(m) {
-				return append(gen.JArr(nil), m.Doc[:2]...)
-			}
-			return append(gen.JArr(nil), m.Doc[:len(m.Doc)-1]...)
-		}},
-		{"arity-label-only", anyMsg, func(t *rapid.T, m *gen.WireMsg) gen.JArr { return gen.JArr{m.Doc[0]} }},
-		{"subid-not-string", func(m *gen.WireMsg) bool { return isFil(m) || m.Label == "CLOSE" }, func(t *rapid.T, m *gen.WireMsg) gen.JArr {
-			doc := append(gen.JArr(nil), m.Doc...)
-			doc[1] = rapid.SampledFrom([]gen.J{gen.JRaw("1"), gen.JRaw("null"), gen.JArr{}, gen.JObj{}}).Draw(t, "badsub")
-			return doc
-		}},
-		// events
-		{"event-not-object", isEv, func(t *rapid.T, m *gen.WireMsg) gen.JArr {
-			doc := append(gen.JArr(nil), m.Doc...)
-			doc[m.EventIdx] = rapid.SampledFrom([]gen.J{gen.JStr("x"), gen.JArr{}, gen.JRaw("1"), gen.JRaw("true")}).Draw(t, "badev")
-			return doc
-		}},
-		{"event-member-missing", isEv, func(t *rapid.T, m *gen.WireMsg) gen.JArr {
-			k := rapid.SampledFrom([]string{"id", "pubkey", "created_at", "kind", "tags", "content", "sig"}).Draw(t, "drop")
-			return withEvent(m, func(o gen.JObj) gen.J { return gen.ObjDel(o, k) })
-		}},
-		{"event-member-extra", isEv, func(t *rapid.T, m *gen.WireMsg) gen.JArr {
-			k := rapid.SampledFrom([]string{"foo", "ID", "Id", "", "kinds"}).Draw(t, "extra")
-			return withEvent(m, func(o gen.JObj) gen.J { return append(append(gen.JObj(nil), o...), gen.JField{K: k, V: gen.JRaw("1")}) })
-		}},
-		{"event-member-renamed", isEv, func(t *rapid.T, m *gen.WireMsg) gen.JArr {
-			k := rapid.SampledFrom([]string{"id", "pubkey", "created_at", "kind", "tags", "content", "sig"}).Draw(t, "ren")
-			return withEvent(m, func(o gen.JObj) gen.J {
-				out := append(gen.JObj(nil), o...)
-				i := gen.ObjGet(out, k)
-				out[i] = gen.JField{K: strings.ToUpper(k), V: out[i].V}
-				return out
-			})
-		}},
-	}
-	for _, f := range []string{"id", "pubkey", "sig"} {
-		f := f
-		cs = append(cs,
-			corruption{"event-" + f + "-short", isEv, evField(f, func(t *rapid.T, old gen.J) gen.J { s := string(old.(gen.JStr)); return gen.JStr(s[:len(s)-1]) })},
-			corruption{"event-" + f + "-long", isEv, evField(f, func(t *rapid.T, old gen.J) gen.J { return gen.JStr(string(old.(gen.JStr)) + "0") })},
-			corruption{"event-" + f + "-upper", isEv, evField(f, func(t *rapid.T, old gen.J) gen.J { return gen.JStr(upperOneHex(t, string(old.(gen.JStr)))) })},
-			corruption{"event-" + f + "-nonhex", isEv, evField(f, func(t *rapid.T, old gen.J) gen.J { s := string(old.(gen.JStr)); return gen.JStr(s[:len(s)-1] + "z") })},
-			corruption{"event-" + f + "-empty", isEv, evField(f, constJ(gen.JStr("")))},
-			corruption{"event-" + f + "-number", isEv, evField(f, constJ(gen.JRaw("12")))},
-			corruption{"event-" + f + "-null", isEv, evField(f, constJ(gen.JRaw("null")))},
-		)
-	}
-	cs = append(cs,
-		corruption{"event-kind-negative", isEv, evField("kind", func(t *rapid.T, old gen.J) gen.J {
-			return gen.JInt(rapid.SampledFrom([]int64{-1, -5, -65535, -1 << 40}).Draw(t, "k"))
-		})},
-		corruption{"event-kind-too-large", isEv, evField("kind", func(t *rapid.T, old gen.J) gen.J {
-			return gen.JInt(rapid.SampledFrom([]int64{65536, 70000, 100000, 1 << 40}).Draw(t, "k"))
-		})},
-		corruption{"event-kind-string", isEv, evField("kind", constJ(gen.JStr("1")))},
-		corruption{"event-kind-float", isEv, evField("kind", constJ(gen.JRaw("1.5")))},
-		corruption{"event-kind-null", isEv, evField("kind", constJ(gen.JRaw("null")))},
-		corruption{"event-created_at-string", isEv, evField("created_at", constJ(gen.JStr("1700000000")))},
-		corruption{"event-created_at-float", isEv, evField("created_at", constJ(gen.JRaw("1700000000.5")))},
-		corruption{"event-created_at-bool", isEv, evField("created_at", constJ(gen.JRaw("true")))},
-		corruption{"event-content-number", isEv, evField("content", constJ(gen.JRaw("0")))},
-		corruption{"event-content-array", isEv, evField("content", constJ(gen.JArr{gen.JStr("x")}))},
-		corruption{"event-tags-object", isEv, evField("tags", constJ(gen.JObj{}))},
-		corruption{"event-tags-string", isEv, evField("tags", constJ(gen.JStr("[]")))},
-		corruption{"event-tags-member-string", isEv, evField("tags", constJ(gen.JArr{gen.JStr("e")}))},
-		corruption{"event-tag-element-number", isEv, evField("tags", constJ(gen.JArr{gen.JArr{gen.JStr("e"), gen.JRaw("1")}}))},
-		corruption{"event-tag-element-null", isEv, evField("tags", constJ(gen.JArr{gen.JArr{gen.JStr("e"), gen.JRaw("null")}}))},
-		// filters
-		corruption{"filter-not-object", isFil, func(t *rapid.T, m *gen.WireMsg) gen.JArr {
-			doc := append(gen.JArr(nil), m.Doc...)
-			i := rapid.SampledFrom(m.FilterIdxs).Draw(t, "whichfilter")
-			doc[i] = rapid.SampledFrom([]gen.J{gen.JStr("x"), gen.JArr{}, gen.JRaw("1"), gen.JRaw("false")}).Draw(t, "badfilter")
-			return doc
-		}},
-		corruption{"filter-tag-name-not-single-letter", isFil, func(t *rapid.T, m *gen.WireMsg) gen.JArr {
-			k := rapid.SampledFrom([]string{"#ab", "#1", "#", "##", "#é", "#_", "#eE"}).Draw(t, "key")
-			return withFilter(t, m, func(o gen.JObj) gen.J { return append(append(gen.JObj(nil), o...), gen.JField{K: k, V: gen.JArr{}}) })
-		}},
-	)
-	cs = append(cs, corruption{"filter-member-unknown", isFil, func(t *rapid.T, m *gen.WireMsg) gen.JArr {
-		k := rapid.SampledFrom([]string{"foo", "IDS", "Ids", "search", "", "e", "kind"}).Draw(t, "key")
-		return withFilter(t, m, func(o gen.JObj) gen.J { return append(append(gen.JObj(nil), o...), gen.JField{K: k, V: gen.JArr{}}) })
-	}})
-	for _, f := range []string{"ids", "authors", "#e", "#p"} {
-		for _, kind := range []string{"short", "long", "upper", "nonhex", "number", "empty"} {
-			cs = append(cs, corruption{"filter-" + f + "-" + kind, isFil, filField(f, badHexList(kind))})
-		}
-		cs = append(cs, corruption{"filter-" + f + "-not-array", isFil, filField(f, func(t *rapid.T) gen.J {
-			return gen.JStr(rapid.StringMatching("[0-9a-f]{64}").Draw(t, "h"))
-		})})
-	}
-	cs = append(cs,
-		corruption{"filter-kinds-negative", isFil, filField("kinds", func(t *rapid.T) gen.J {
-			return gen.JArr{gen.JInt(1), gen.JInt(rapid.SampledFrom([]int64{-1, -5, -70000}).Draw(t, "k"))}
-		})},
-		corruption{"filter-kinds-too-large", isFil, filField("kinds", func(t *rapid.T) gen.J {
-			return gen.JArr{gen.JInt(rapid.SampledFrom([]int64{65536, 70000, 1 << 33}).Draw(t, "k")), gen.JInt(1)}
-		})},
-		corruption{"filter-kinds-string", isFil, filField("kinds", func(t *rapid.T) gen.J { return gen.JArr{gen.JStr("1")} })},
-		corruption{"filter-kinds-float", isFil, filField("kinds", func(t *rapid.T) gen.J { return gen.JArr{gen.JRaw("1.5")} })},
-		corruption{"filter-kinds-not-array", isFil, filField("kinds", func(t *rapid.T) gen.J { return gen.JInt(1) })},
-		corruption{"filter-tag-value-number", isFil, filField("#t", func(t *rapid.T) gen.J { return gen.JArr{gen.JStr("x"), gen.JRaw("1")} })},
-		corruption{"filter-tag-not-array", isFil, filField("#t", func(t *rapid.T) gen.J { return gen.JStr("x") })},
-		corruption{"filter-tag-object", isFil, filField("#t", func(t *rapid.T) gen.J { return gen.JObj{} })},
-		corruption{"filter-a-two-parts", isFil, filField("#a", func(t *rapid.T) gen.J {
-			return gen.JArr{gen.JStr("30000:" + rapid.StringMatching("[0-9a-f]{64}").Draw(t, "pk"))}
-		})},
-		corruption{"filter-a-one-part", isFil, filField("#a", func(t *rapid.T) gen.J { return gen.JArr{gen.JStr("30000")} })},
-		corruption{"filter-a-kind-not-number", isFil, filField("#a", func(t *rapid.T) gen.J {
-			return gen.JArr{gen.JStr("x:" + rapid.StringMatching("[0-9a-f]{64}").Draw(t, "pk") + ":d")}
-		})},
-		corruption{"filter-a-kind-out-of-range", isFil, filField("#a", func(t *rapid.T) gen.J {
-			k := rapid.SampledFrom([]string{"70000", "-1", "65536"}).Draw(t, "k")
-			return gen.JArr{gen.JStr(k + ":" + rapid.StringMatching("[0-9a-f]{64}").Draw(t, "pk") + ":d")}
-		})},
-		corruption{"filter-a-pubkey-bad", isFil, filField("#a", func(t *rapid.T) gen.J {
-			pk := rapid.StringMatching("[0-9a-f]{64}").Draw(t, "pk")
-			bad := rapid.SampledFrom([]string{pk[:63], pk + "0", upperOneHexNoDraw(pk), "abc"}).Draw(t, "badpk")
-			return gen.JArr{gen.JStr("30000:" + bad + ":d")}
-		})},
-	)
-	for _, f := range []string{"since", "until", "limit"} {
-		f := f
-		cs = append(cs,
-			corruption{"filter-" + f + "-negative", isFil, filField(f, func(t *rapid.T) gen.J {
-				return gen.JInt(rapid.SampledFrom([]int64{-1, -1700000000}).Draw(t, "neg"))
-			})},
-			corruption{"filter-" + f + "-string", isFil, filField(f, func(t *rapid.T) gen.J { return gen.JStr("10") })},
-			corruption{"filter-" + f + "-float", isFil, filField(f, func(t *rapid.T) gen.J { return gen.JRaw("10.5") })},
-			corruption{"filter-" + f + "-array", isFil, filField(f, func(t *rapid.T) gen.J { return gen.JArr{gen.JInt(1)} })},
-		)
-	}
-	return cs
-}()
-
-func upperOneHexNoDraw(s string) string {
-	for i := 0; i < len(s); i++ {
-		if s[i] >= 'a' && s[i] <= 'f' {
-			return s[:i] + strings.ToUpper(s[i:i+1]) + s[i+1:]
-		}
-	}
-	return "A" + s[1:]
-}
-
 // fix-ups: a corruption that sets since/until on a filter must not be masked by
 // the since<=until rule: drop the sibling bound so that only the intended
 // corruption can be the reason for rejection.
-func c11Apply(t *rapid.T, c corruption, m *gen.WireMsg) gen.JArr {
-	return c.apply(t, m)
+func c11Apply(t *rapid.T, c gen.Corruption, m *gen.WireMsg) gen.JArr {
+	return c.Apply(t, m)
 }
 
 func TestC11Corruptions(t *testing.T) {
 	col := ev.For("C11").SetRule(c11Rule)
 	rapid.Check(t, func(t *rapid.T) {
 		m := gen.WireClientMsg(t, "", false)
-		var app []corruption
-		for _, c := range c11Corruptions {
-			if c.applies(m) {
+		var app []gen.Corruption
+		for _, c := range gen.Corruptions {
+			if c.Applies(m) {
 				app = append(app, c)
 			}
 		}
@@ -351,45 +108,24 @@ func TestC11Corruptions(t *testing.T) {
 		doc := c11Apply(t, c, m)
 		ws := rapid.IntRange(0, 3).Draw(t, "wsmode") == 0
 		text := gen.Render(doc, &gen.RenderOpts{T: t, Whitespace: ws})
-		col.Label("corruption:" + c.name)
+		col.Label("corruption:" + c.Name)
 		got, ok, _ := admitted(text)
-		if ok && !c11MustReject(c.name) {
+		if ok && !gen.MustReject(c.Name) {
 			// structural corruption (label, arity, sub id type, null, extra member): the
 			// statement only demands that whatever is accepted is sound
-			col.Label("structural-accepted:" + c.name)
+			col.Label("structural-accepted:" + c.Name)
 			if okS, whyS := gen.StrictClientMsg(got); !okS {
 				hx.Fail(t, ev.Failure{Property: "C11", Signature: "accepted-unsound", Clause: "no message judged valid breaks the NIP-01 constraints",
-					Case: map[string]any{"text": text, "corruption": c.name}, Observed: whyS + ": " + hx.JSON(got), Expected: "sound"})
+					Case: map[string]any{"text": text, "corruption": c.Name}, Observed: whyS + ": " + hx.JSON(got), Expected: "sound"})
 			}
 		} else if ok {
-			sig := "corruption-accepted:" + corruptionFamily(c.name)
-			hx.Fail(t, ev.Failure{Property: "C11", Signature: sig, Clause: "a single-point corruption (" + c.name + ") must be rejected by parse or validity",
-				Case: map[string]any{"text": text, "corruption": c.name}, Observed: "accepted as " + hx.JSON(got), Expected: "parse error or judged invalid"})
+			sig := "corruption-accepted:" + corruptionFamily(c.Name)
+			hx.Fail(t, ev.Failure{Property: "C11", Signature: sig, Clause: "a single-point corruption (" + c.Name + ") must be rejected by parse or validity",
+				Case: map[string]any{"text": text, "corruption": c.Name}, Observed: "accepted as " + hx.JSON(got), Expected: "parse error or judged invalid"})
 		}
-		inside := strings.HasPrefix(c.name, "event-") || strings.HasPrefix(c.name, "filter-")
-		col.Case(inside, text, func() any { return map[string]any{"corruption": c.name, "text": text} })
+		inside := strings.HasPrefix(c.Name, "event-") || strings.HasPrefix(c.Name, "filter-")
+		col.Case(inside, text, func() any { return map[string]any{"corruption": c.Name, "text": text} })
 	})
-}
-
-// c11MustReject: corruptions after which the message contains an event or
-// filter that breaks one of the constraints the property lists, so accepting it
-// is a violation of the converse. The remaining (structural) classes - unknown
-// label, arity, sub id type, extra/unknown members, JSON null - are only
-// required to yield a sound value if accepted; their rejection is demanded by
-// C12, not by C11.
-func c11MustReject(name string) bool {
-	if strings.HasSuffix(name, "-null") {
-		return false
-	}
-	switch name {
-	case "label-unknown", "label-not-string", "arity-extra", "arity-missing", "arity-label-only", "subid-not-string",
-		"event-not-object", "filter-not-object", "event-member-extra":
-		return false
-	}
-	if name == "filter-member-unknown" {
-		return false
-	}
-	return strings.HasPrefix(name, "event-") || strings.HasPrefix(name, "filter-")
 }
 
 func corruptionFamily(name string) string {
@@ -409,13 +145,13 @@ func TestC11Soundness(t *testing.T) {
 		doc := m.Doc
 		mode := rapid.IntRange(0, 3).Draw(t, "mode")
 		if mode >= 1 {
-			var app []corruption
-			for _, c := range c11Corruptions {
-				if c.applies(m) {
+			var app []gen.Corruption
+			for _, c := range gen.Corruptions {
+				if c.Applies(m) {
 					app = append(app, c)
 				}
 			}
-			doc = app[rapid.IntRange(0, len(app)-1).Draw(t, "corruption")].apply(t, m)
+			doc = app[rapid.IntRange(0, len(app)-1).Draw(t, "corruption")].Apply(t, m)
 		}
 		text := gen.Render(doc, &gen.RenderOpts{T: t, Whitespace: rapid.Bool().Draw(t, "ws")})
 		if mode >= 2 {
